@@ -16,3 +16,43 @@ CHECKS["C02"] = dict(
     note="closed CFG = DESIGN section 9; nothing claimed beyond the block bound; z3 5.1.0 trusted for unsat answers (mitigated by the brute-force count self-test)",
     technique="bounded symbolic execution of the real code with z3 (solver-enumerated input space, exhaustive within N<=5)",
 )
+FIX_COMMITS += ["7ee04ab", "decdc60", "30ed493", "147027b"]
+_S1_NOTE = ("closed CFG = DESIGN section 9 (<= 2 ordered distinct successors, unique entry without predecessor, all blocks reach an exit); nothing claimed beyond the "
+            "block bound of each job; z3 5.1.0 trusted for unsat answers (mitigated: path counts 60 / 3,816 / 88,680 must equal an independent brute-force or recorded count)")
+_S1_TECH = "bounded symbolic execution of the real code with z3 (solver-enumerated closed CFGs, exhaustive for N<=5; oracle evaluated per path)"
+CHECKS["C01"] = dict(level="model_checking", design_ref="DESIGN.md section 5 C01, 4.2", note=_S1_NOTE, technique=_S1_TECH + "; inner quantifier over decision sequences by complete product search",
+    text=("Every closed CFG with <= 4 blocks (all labellings) and every 5-block CFG with entry b0 (quick; all labellings + 6/7-block families in thorough): after each stage prefix the "
+          "product of the original graph with the result (position, control valuation, expected original block) is searched completely, once following blocks' own targets and once "
+          "region by region (declared header / exiting / region targets). Covers all decision sequences of unbounded length for each explored graph."))
+CHECKS["C03"] = dict(level="model_checking", design_ref="DESIGN.md section 5 C03", note=_S1_NOTE, technique=_S1_TECH,
+    text=("Same bounded-exhaustive S1 exploration; the definition of 'structured' is checked as such at every level of the result (acyclic without back edges, one latch per loop "
+          "region with a single back edge to the header, input cycles inside one loop region, head/branch/tail discipline)."))
+CHECKS["C04"] = dict(level="model_checking", design_ref="DESIGN.md section 5 C04", note=_S1_NOTE, technique=_S1_TECH,
+    text=("Same bounded-exhaustive S1 exploration after each stage prefix; every level is checked for unique names, header/exiting membership, scope of every target and back edge, "
+          "entry only at the header and exit only from the exiting block, region targets equal to the exiting chain's targets, parent bookkeeping."))
+CHECKS["C05"] = dict(level="model_checking", design_ref="DESIGN.md section 5 C05", note=_S1_NOTE, technique=_S1_TECH,
+    text=("Same bounded-exhaustive S1 exploration x three payload types x stage prefixes: every input block occurs exactly once as a leaf of the same type with identical payload, arity and "
+          "successor positions (renamed only to blocks/regions that did not exist in the input); everything added is synthetic or a region."))
+CHECKS["C06"] = dict(level="model_checking", design_ref="DESIGN.md section 5 C06", note=_S1_NOTE, technique=_S1_TECH + "; all paths per graph by complete search of reachable control valuations",
+    text=("Same bounded-exhaustive S1 exploration x stage prefixes; static table/target agreement for every branching synthetic block plus a complete search of (block, control valuation "
+          "with freshness bits): unset, stale or out-of-range control variables are found on any path, executed or not."))
+CHECKS["C13"] = dict(level="model_checking", design_ref="DESIGN.md section 5 C13, section 3 S4",
+    note="S4 digraphs: N blocks + one external name, ordered slots, duplicates and self loops allowed; preconditions listed in the evidence file (unique head for find_head, >= 1 entry for dominators)",
+    technique="bounded symbolic execution of the real query functions with z3 (solver-enumerated digraphs), compared with definitional oracles for all pairs and all subsets",
+    text=("Every digraph with <= 2 blocks x 3 slots, 3 blocks x 2 slots, and 3x3 / 4x2 with an edge cap (quick; full 3x3 and 4x2 in thorough): SCCs, reachability, head, headers/entries, "
+          "exiting/exits for ALL subsets, dominators, post-dominators and immediate dominators must equal oracles computed from the definitions (Warshall closure, node-removal reachability)."))
+CHECKS["C14"] = dict(level="model_checking", design_ref="DESIGN.md section 5 C14, section 3 S5/S6",
+    note="pre-states with pairwise distinct successors; documented preconditions of each primitive are listed in the evidence file; sequences are covered inductively (every op from every explored pre-state) plus explicit length-2 sequences",
+    technique="bounded symbolic execution of the real edit primitives with z3 (solver-enumerated pre-states incl. restructured hierarchies), all P/S choices per pre-state, arc-level specification + product search",
+    text=("Pre-states: every graph of <= 3 plain blocks with optional declared back edges, and every level of every restructured closed CFG (regions, latches, branching synthetic blocks); "
+          "all predecessor sets and successor lists of size <= 2 x {insert_Synthetic*, insert_block_and_control_blocks, join_returns, join_tails_and_exits} are compared with an arc-level "
+          "specification; the control-block variant additionally by arc-wise path preservation, also after a second insertion."))
+CHECKS["C16"] = dict(level="model_checking", design_ref="DESIGN.md section 5 C16", note=_S1_NOTE, technique=_S1_TECH,
+    text=("Same bounded-exhaustive S1 exploration x stage prefixes {none, closed, loops, branches}: list(scfg) and the concealed view of the top graph and of every sub-region are compared "
+          "with the hierarchy itself (exactly once, head first, predecessors first)."))
+CHECKS["C17"] = dict(level="model_checking", design_ref="DESIGN.md section 5 C17", note=_S1_NOTE + "; only Digraph.source is read",
+    technique=_S1_TECH + "; emitted DOT parsed by an independent tokenizer/parser",
+    text=("Bounded-exhaustive S1 exploration (N<=4 all labellings, N=5 entry b0 with <= 7 edges in quick) x {plain, AST payload} x stage prefixes: the DOT text is parsed and compared with "
+          "the hierarchy: nodes, nested clusters, solid/dashed edges to resolved headers, label contents."))
+for _p in ("C01", "C02", "C03", "C04", "C05", "C06", "C13", "C14", "C16", "C17"):
+    ENGINES[0]["serves_properties"].append(_p)
